@@ -46,7 +46,7 @@ class Check:
     rule = ""
     assumptions = []
     floor_nontrivial = 2          # vacuity guard (R7)
-    budget_quick = 170
+    budget_quick = 300
     budget_thorough = 3000
     chunksize = 4
 
